@@ -277,3 +277,16 @@ pub fn seed_vault_drained() -> Vec<Act> {
         Act::close("alice"),
     ]
 }
+
+/// everything in one block: carol pumps, alice and bob open long at the top, carol closes; alice and
+/// bob are far below maintenance on spot and on TWAP within the same block
+pub fn seed_same_block_cascade() -> Vec<Act> {
+    vec![
+        Act::blk(15),
+        Act::open("carol", true, 100 * D, 10 * D),
+        Act::open("alice", true, 20 * D, 10 * D),
+        Act::open("bob", true, 20 * D, 10 * D),
+        Act::close("carol"),
+        px_at_spot(),
+    ]
+}
